@@ -25,344 +25,7 @@ verus! {
 
 //@extract kind=enum file=rten-shape-inference/src/sym_expr.rs name=SymExpr
 
-// ---------------------------------------------------------------- spec (from the property)
-
-pub type Env = Map<Seq<char>, int>;
-
-pub open spec fn in_i32(x: int) -> bool { i32::MIN <= x <= i32::MAX }
-
-/// Rust's `/` on signed integers: truncation toward zero.
-#[verifier::opaque]
-pub open spec fn tdiv(x: int, y: int) -> int
-    recommends y != 0
-{
-    if x >= 0 && y > 0 { x / y }
-    else if x >= 0 && y < 0 { -(x / (-y)) }
-    else if x < 0 && y > 0 { -((-x) / y) }
-    else { (-x) / (-y) }
-}
-
-/// ceil(x / y) over the rationals.
-#[verifier::opaque]
-pub open spec fn cdiv(x: int, y: int) -> int
-    recommends y != 0
-{
-    if y > 0 { -((-x) / y) } else { -(x / (-y)) }
-}
-
-/// a * b, opaque: products of evaluated sub-expressions stay out of Z3's nonlinear core (with a
-/// plain `*` the Mul arm verifies sub-arm by sub-arm but not as a whole); see lemma_mul_smul.
-#[verifier::opaque]
-pub open spec fn smul(a: int, b: int) -> int { a * b }
-
-pub open spec fn imax(a: int, b: int) -> int { if a >= b { a } else { b } }
-pub open spec fn imin(a: int, b: int) -> int { if a <= b { a } else { b } }
-
-/// Mathematical value of an expression under an assignment (same definition as in unit
-/// U-symexpr).
-pub open spec fn ev(e: SymExpr, env: Env) -> int
-    decreases e
-{
-    match e {
-        SymExpr::Value(x) => x as int,
-        SymExpr::Var(sym) => env[sym.name@],
-        SymExpr::Add(l, r) => ev(*l, env) + ev(*r, env),
-        SymExpr::Sub(l, r) => ev(*l, env) - ev(*r, env),
-        SymExpr::Mul(l, r) => smul(ev(*l, env), ev(*r, env)),
-        SymExpr::Div(l, r) => tdiv(ev(*l, env), ev(*r, env)),
-        SymExpr::DivCeil(l, r) => cdiv(ev(*l, env), ev(*r, env)),
-        SymExpr::Max(l, r) => imax(ev(*l, env), ev(*r, env)),
-        SymExpr::Min(l, r) => imin(ev(*l, env), ev(*r, env)),
-        SymExpr::Broadcast(l, r) => imax(ev(*l, env), ev(*r, env)),
-        SymExpr::Neg(x) => -ev(*x, env),
-    }
-}
-
-/// Mask configuration (template parameters, see unit config "subst"): which of the
-/// known-finding classes are excluded from the obligation.
-pub open spec fn mask_f1() -> bool { @@F1@@ }
-pub open spec fn mask_f2() -> bool { @@F2@@ }
-pub open spec fn mask_f3() -> bool { @@F3@@ }
-
-pub open spec fn divceil_side(d: int) -> bool { if mask_f2() { d > 0 } else { d != 0 } }
-
-pub open spec fn bcast_side(a: int, b: int) -> bool {
-    if mask_f3() { a >= 1 && b >= 1 && (a == b || a == 1 || b == 1) } else { true }
-}
-
-/// "evaluates without division by zero" over the integers (+ the mask side conditions).
-pub open spec fn okw(e: SymExpr, env: Env) -> bool
-    decreases e
-{
-    match e {
-        SymExpr::Value(x) => true,
-        SymExpr::Var(sym) => true,
-        SymExpr::Add(l, r) | SymExpr::Sub(l, r) | SymExpr::Mul(l, r)
-        | SymExpr::Max(l, r) | SymExpr::Min(l, r) => okw(*l, env) && okw(*r, env),
-        SymExpr::Div(l, r) => okw(*l, env) && okw(*r, env) && ev(*r, env) != 0,
-        SymExpr::DivCeil(l, r) => okw(*l, env) && okw(*r, env) && divceil_side(ev(*r, env)),
-        SymExpr::Broadcast(l, r) =>
-            okw(*l, env) && okw(*r, env) && bcast_side(ev(*l, env), ev(*r, env)),
-        SymExpr::Neg(x) => okw(*x, env),
-    }
-}
-
-/// "evaluates without division by zero or overflow": okw + every node's value is an i32.
-/// (Symbols declared positive are not restricted here: the obligation is proved for more
-/// assignments than the property asks for.)
-pub open spec fn okp(e: SymExpr, env: Env) -> bool
-    decreases e
-{
-    &&& in_i32(ev(e, env))
-    &&& match e {
-        SymExpr::Value(x) => true,
-        SymExpr::Var(sym) => true,
-        SymExpr::Add(l, r) | SymExpr::Sub(l, r) | SymExpr::Mul(l, r)
-        | SymExpr::Max(l, r) | SymExpr::Min(l, r) => okp(*l, env) && okp(*r, env),
-        SymExpr::Div(l, r) => okp(*l, env) && okp(*r, env) && ev(*r, env) != 0,
-        SymExpr::DivCeil(l, r) => okp(*l, env) && okp(*r, env) && divceil_side(ev(*r, env)),
-        SymExpr::Broadcast(l, r) =>
-            okp(*l, env) && okp(*r, env) && bcast_side(ev(*l, env), ev(*r, env)),
-        SymExpr::Neg(x) => okp(*x, env),
-    }
-}
-
-/// What is demanded of a result: with F1 masked only well-definedness over the integers,
-/// otherwise that it evaluates without overflow as well.
-pub open spec fn good(r: SymExpr, env: Env) -> bool {
-    if mask_f1() { okw(r, env) } else { okp(r, env) }
-}
-
-/// The property for one call: same value wherever the original evaluates.
-pub open spec fn preserves(e: SymExpr, r: SymExpr) -> bool {
-    forall|env: Env| #[trigger] okp(e, env) ==> good(r, env) && ev(r, env) == ev(e, env)
-}
-
-pub open spec fn satisfiable(e: SymExpr) -> bool {
-    exists|env: Env| #[trigger] okp(e, env)
-}
-
-/// a == b (SymExpr's structural equality up to commutation of Add/Mul/Max/Min/Broadcast
-/// operands, symbols compared by name) => same value and same definedness.
-pub open spec fn same_meaning(a: SymExpr, b: SymExpr) -> bool {
-    forall|env: Env| #![trigger ev(a, env)] #![trigger ev(b, env)]
-        ev(a, env) == ev(b, env) && okw(a, env) == okw(b, env) && okp(a, env) == okp(b, env)
-}
-
-// ---------------------------------------------------------------- unfolding hints
-pub open spec fn child_l(e: SymExpr) -> SymExpr {
-    match e {
-        SymExpr::Add(l, r) | SymExpr::Sub(l, r) | SymExpr::Mul(l, r) | SymExpr::Div(l, r)
-        | SymExpr::DivCeil(l, r) | SymExpr::Max(l, r) | SymExpr::Min(l, r) | SymExpr::Broadcast(l, r) => *l,
-        SymExpr::Neg(x) => *x,
-        _ => e,
-    }
-}
-pub open spec fn child_r(e: SymExpr) -> SymExpr {
-    match e {
-        SymExpr::Add(l, r) | SymExpr::Sub(l, r) | SymExpr::Mul(l, r) | SymExpr::Div(l, r)
-        | SymExpr::DivCeil(l, r) | SymExpr::Max(l, r) | SymExpr::Min(l, r) | SymExpr::Broadcast(l, r) => *r,
-        _ => e,
-    }
-}
-pub broadcast proof fn lemma_unfold_okp(e: SymExpr, env: Env)
-    requires #[trigger] okp(e, env)
-    ensures
-        in_i32(ev(e, env)),
-        okw(e, env),
-        match e {
-            SymExpr::Value(x) => ev(e, env) == x as int,
-            SymExpr::Var(sym) => true,
-            SymExpr::Add(l, r) => okp(*l, env) && okp(*r, env) && ev(e, env) == ev(*l, env) + ev(*r, env),
-            SymExpr::Sub(l, r) => okp(*l, env) && okp(*r, env) && ev(e, env) == ev(*l, env) - ev(*r, env),
-            SymExpr::Mul(l, r) => okp(*l, env) && okp(*r, env) && ev(e, env) == smul(ev(*l, env), ev(*r, env)),
-            SymExpr::Div(l, r) => okp(*l, env) && okp(*r, env) && ev(*r, env) != 0 && ev(e, env) == tdiv(ev(*l, env), ev(*r, env)),
-            SymExpr::DivCeil(l, r) => okp(*l, env) && okp(*r, env) && divceil_side(ev(*r, env)) && ev(e, env) == cdiv(ev(*l, env), ev(*r, env)),
-            SymExpr::Max(l, r) => okp(*l, env) && okp(*r, env) && ev(e, env) == imax(ev(*l, env), ev(*r, env)),
-            SymExpr::Min(l, r) => okp(*l, env) && okp(*r, env) && ev(e, env) == imin(ev(*l, env), ev(*r, env)),
-            SymExpr::Broadcast(l, r) => okp(*l, env) && okp(*r, env) && bcast_side(ev(*l, env), ev(*r, env))
-                && ev(e, env) == imax(ev(*l, env), ev(*r, env)),
-            SymExpr::Neg(x) => okp(*x, env) && ev(e, env) == -ev(*x, env),
-        },
-    decreases e
-{
-    match e {
-        SymExpr::Value(x) => {},
-        SymExpr::Var(sym) => {},
-        SymExpr::Neg(x) => { lemma_unfold_okp(child_l(e), env); },
-        _ => { lemma_unfold_okp(child_l(e), env); lemma_unfold_okp(child_r(e), env); },
-    }
-}
-
-pub broadcast proof fn lemma_unfold_okw(e: SymExpr, env: Env)
-    requires #[trigger] okw(e, env)
-    ensures
-        match e {
-            SymExpr::Value(x) => ev(e, env) == x as int,
-            SymExpr::Var(sym) => true,
-            SymExpr::Add(l, r) => okw(*l, env) && okw(*r, env) && ev(e, env) == ev(*l, env) + ev(*r, env),
-            SymExpr::Sub(l, r) => okw(*l, env) && okw(*r, env) && ev(e, env) == ev(*l, env) - ev(*r, env),
-            SymExpr::Mul(l, r) => okw(*l, env) && okw(*r, env) && ev(e, env) == smul(ev(*l, env), ev(*r, env)),
-            SymExpr::Div(l, r) => okw(*l, env) && okw(*r, env) && ev(*r, env) != 0 && ev(e, env) == tdiv(ev(*l, env), ev(*r, env)),
-            SymExpr::DivCeil(l, r) => okw(*l, env) && okw(*r, env) && divceil_side(ev(*r, env)) && ev(e, env) == cdiv(ev(*l, env), ev(*r, env)),
-            SymExpr::Max(l, r) => okw(*l, env) && okw(*r, env) && ev(e, env) == imax(ev(*l, env), ev(*r, env)),
-            SymExpr::Min(l, r) => okw(*l, env) && okw(*r, env) && ev(e, env) == imin(ev(*l, env), ev(*r, env)),
-            SymExpr::Broadcast(l, r) => okw(*l, env) && okw(*r, env) && bcast_side(ev(*l, env), ev(*r, env))
-                && ev(e, env) == imax(ev(*l, env), ev(*r, env)),
-            SymExpr::Neg(x) => okw(*x, env) && ev(e, env) == -ev(*x, env),
-        },
-{
-}
-
-/// Folding hints for the two-level terms the code constructs (`x / Value(c)`, `x / (c1 * c2)`,
-/// `x.div_ceil(..)`): the default fuel unfolds okw/okp/ev once and leaves the operands as
-/// fuel-indexed calls; these restate one unfolding step of a constructor application in
-/// user-level terms (which can be unfolded once more).
-pub broadcast proof fn lemma_fold_mul(a: Arc<SymExpr>, b: Arc<SymExpr>, env: Env)
-    ensures
-        #![trigger okw(SymExpr::Mul(a, b), env)]
-        #![trigger okp(SymExpr::Mul(a, b), env)]
-        #![trigger ev(SymExpr::Mul(a, b), env)]
-        okw(SymExpr::Mul(a, b), env) == (okw(*a, env) && okw(*b, env)),
-        okp(SymExpr::Mul(a, b), env) == (okp(*a, env) && okp(*b, env) && in_i32(smul(ev(*a, env), ev(*b, env)))),
-        ev(SymExpr::Mul(a, b), env) == smul(ev(*a, env), ev(*b, env)),
-{
-}
-
-pub broadcast proof fn lemma_fold_div(a: Arc<SymExpr>, b: Arc<SymExpr>, env: Env)
-    ensures
-        #![trigger okw(SymExpr::Div(a, b), env)]
-        #![trigger okp(SymExpr::Div(a, b), env)]
-        #![trigger ev(SymExpr::Div(a, b), env)]
-        okw(SymExpr::Div(a, b), env) == (okw(*a, env) && okw(*b, env) && ev(*b, env) != 0),
-        okp(SymExpr::Div(a, b), env) == (okp(*a, env) && okp(*b, env) && ev(*b, env) != 0
-            && in_i32(tdiv(ev(*a, env), ev(*b, env)))),
-        ev(SymExpr::Div(a, b), env) == tdiv(ev(*a, env), ev(*b, env)),
-{
-}
-
-pub broadcast proof fn lemma_fold_divceil(a: Arc<SymExpr>, b: Arc<SymExpr>, env: Env)
-    ensures
-        #![trigger okw(SymExpr::DivCeil(a, b), env)]
-        #![trigger okp(SymExpr::DivCeil(a, b), env)]
-        #![trigger ev(SymExpr::DivCeil(a, b), env)]
-        okw(SymExpr::DivCeil(a, b), env) == (okw(*a, env) && okw(*b, env) && divceil_side(ev(*b, env))),
-        okp(SymExpr::DivCeil(a, b), env) == (okp(*a, env) && okp(*b, env) && divceil_side(ev(*b, env))
-            && in_i32(cdiv(ev(*a, env), ev(*b, env)))),
-        ev(SymExpr::DivCeil(a, b), env) == cdiv(ev(*a, env), ev(*b, env)),
-{
-}
-
-// ---------------------------------------------------------------- multiplication / division facts
-pub broadcast proof fn lemma_smul_one_l(b: int)
-    ensures #[trigger] smul(1, b) == b
-{ reveal(smul); }
-
-pub broadcast proof fn lemma_smul_one_r(a: int)
-    ensures #[trigger] smul(a, 1) == a
-{ reveal(smul); }
-
-/// Connects a machine product appearing in the code (`x * y`, `checked_mul`) to smul.
-pub broadcast proof fn lemma_mul_smul(a: int, b: int)
-    ensures #[trigger] (a * b) == smul(a, b)
-{ reveal(smul); }
-
-pub broadcast proof fn lemma_tdiv_one(x: int)
-    ensures #[trigger] tdiv(x, 1) == x
-{
-    reveal(tdiv);
-}
-
-pub broadcast proof fn lemma_cdiv_one(x: int)
-    ensures #[trigger] cdiv(x, 1) == x
-{
-    reveal(cdiv);
-}
-
-pub broadcast proof fn lemma_cdiv_self(v: int)
-    requires v != 0
-    ensures #[trigger] cdiv(v, v) == 1
-{
-    reveal(cdiv);
-    if v > 0 {
-        assert((-v) / v == -1) by (nonlinear_arith) requires v > 0;
-    } else {
-        assert(v / (-v) == -1) by (nonlinear_arith) requires v < 0;
-    }
-}
-
-pub proof fn lemma_div_negdiv(a: int, d: int)
-    requires a >= 0, d > 0
-    ensures a / (-d) == -(a / d)
-{
-    assert(a / (-d) == -(a / d)) by (nonlinear_arith) requires a >= 0, d > 0;
-}
-
-/// Relates tdiv to the machine division of two i32 values as Verus specifies it (used where the
-/// code folds `Value(x) / Value(y)` into `Value(x / y)`).
-pub broadcast proof fn lemma_tdiv_exec(x: i32, y: i32)
-    requires y != 0
-    ensures
-        in_i32(#[trigger] tdiv(x as int, y as int)) ==> !(x == i32::MIN && y == -1),
-        tdiv(x as int, y as int) == (
-            if x == 0 { 0 } else if x > 0 { x as int / y as int } else { -((-x as int) / y as int) }),
-{
-    reveal(tdiv);
-    if y < 0 {
-        if x >= 0 { lemma_div_negdiv(x as int, -y as int); } else { lemma_div_negdiv(-x as int, -y as int); }
-    }
-}
-
-/// floor(floor(n / b) / c) == floor(n / (b * c)) for b, c > 0 and any n.
-pub proof fn lemma_floor_floor(n: int, b: int, c: int)
-    requires b > 0, c > 0
-    ensures b * c > 0, (n / b) / c == n / (b * c)
-{
-    let q1 = n / b; let r1 = n % b;
-    let q2 = q1 / c; let r2 = q1 % c;
-    vstd::arithmetic::div_mod::lemma_fundamental_div_mod(n, b);
-    vstd::arithmetic::div_mod::lemma_fundamental_div_mod(q1, c);
-    vstd::arithmetic::div_mod::lemma_mod_bound(n, b);
-    vstd::arithmetic::div_mod::lemma_mod_bound(q1, c);
-    assert(b * c > 0) by (nonlinear_arith) requires b > 0, c > 0;
-    let r = r2 * b + r1;
-    assert(0 <= r < b * c) by (nonlinear_arith) requires 0 <= r1 < b, 0 <= r2 < c, r == r2 * b + r1, b > 0, c > 0;
-    assert(n == q2 * (b * c) + r) by (nonlinear_arith)
-        requires n == b * q1 + r1, q1 == c * q2 + r2, r == r2 * b + r1;
-    vstd::arithmetic::div_mod::lemma_fundamental_div_mod_converse(n, b * c, q2, r);
-}
-
-/// x / b / c == x / (b * c) for truncating division and any non-zero b, c.
-pub broadcast proof fn lemma_tdiv_tdiv(x: int, b: int, c: int)
-    requires b != 0, c != 0
-    ensures smul(b, c) != 0, #[trigger] tdiv(tdiv(x, b), c) == tdiv(x, smul(b, c))
-{
-    reveal(tdiv); reveal(smul);
-    let ax = if x >= 0 { x } else { -x };
-    let ab = if b > 0 { b } else { -b };
-    let ac = if c > 0 { c } else { -c };
-    lemma_floor_floor(ax, ab, ac);
-    assert(ax / ab >= 0) by (nonlinear_arith) requires ax >= 0, ab > 0;
-    assert((ax / ab) / ac >= 0) by (nonlinear_arith) requires ax / ab >= 0, ac > 0;
-    assert(b * c != 0) by (nonlinear_arith) requires b != 0, c != 0;
-    if (b > 0) == (c > 0) {
-        assert(b * c == ab * ac) by (nonlinear_arith) requires (b > 0) == (c > 0), b != 0, c != 0,
-            ab == if b > 0 { b } else { -b }, ac == if c > 0 { c } else { -c };
-    } else {
-        assert(-(b * c) == ab * ac) by (nonlinear_arith) requires (b > 0) != (c > 0), b != 0, c != 0,
-            ab == if b > 0 { b } else { -b }, ac == if c > 0 { c } else { -c };
-    }
-}
-
-/// ceil(ceil(x / b) / c) == ceil(x / (b * c)) for b, c > 0.
-pub broadcast proof fn lemma_cdiv_cdiv(x: int, b: int, c: int)
-    requires b > 0, c > 0
-    ensures smul(b, c) > 0, #[trigger] cdiv(cdiv(x, b), c) == cdiv(x, smul(b, c))
-{
-    reveal(cdiv); reveal(smul);
-    lemma_floor_floor(-x, b, c);
-}
-
+//@include contracts/verus/symexpr_spec.inc.rs
 
 // ---------------------------------------------------------------- trusted declarations
 // (every item here is an assumption and is listed by the assumption scan in the evidence)
